@@ -21,6 +21,8 @@
 -/
 import BlocV.Model.ParseCtx
 import BlocV.Proofs.Lemmas.ParseCtx
+import BlocV.Proofs.Lemmas.ParseSim
+import BlocV.Model.Session
 
 namespace BlocV.ParseCtx
 
@@ -364,5 +366,464 @@ def exUseCtx : Ctx :=
 
 example : (parseText (fun _ => 0) exUseCtx [.reg "I" (.plain ⟨2, 0, 0⟩), .enterFor 0, .reg "X" (.plain ⟨4, 0, 0⟩), .fail]).rejected
     = some exUseCtx := by decide
+
+
+/-! ## the statement level: the guard of the clause entries is derived, flags at any nesting depth
+
+`nstepE` / `parseTextN` (Model/ParseCtx) run texts given by NAMES, with `FORStatement::parse` / `FORALLStatement::parse`
+headers and the two `parse_clause` entries transcribed as written — without the test "control variable / iterator not
+locked" that the id-level events `enterFor` / `enterForall` carry. -/
+
+/-- **for_guard_derived.** The symbol `registerSymbol` hands to the FOR header is not locked (a locked one is refused with
+CONST_VIOLATION, a new one is created unlocked), so the guarded clause entry IS the clause entry as written. -/
+theorem for_guard_derived (H : Decl → Nat) (c c1 : Ctx) (n : String) (i : Nat) (hal : c.aligned)
+    (hreg : registerSymbol H c n (.plain intTy) = .ok c1) (hi : findName n c1.names = some i) :
+    enterFor c1 i = enterForRaw c1 i ∧ ∃ fl, c1.fls[i]? = some fl ∧ fl.locked = false := by
+  obtain ⟨j, fl, hj, hfl, hl⟩ := registerSymbol_unlocked hreg hal
+  rw [hi] at hj
+  cases hj
+  exact ⟨enterFor_eq_raw hfl hl, fl, hfl, hl⟩
+
+example : (registerSymbol (fun _ => 0) exUseCtx "I" (.plain intTy)).toOption = some exUseCtx ∧ exUseCtx.aligned ∧
+    findName "I" exUseCtx.names = some 0 ∧ (enterForRaw exUseCtx 0).isSome = true := by decide
+
+/-- **forall_guard_derived.** Same for the FORALL iterator, whatever the element type and the target. -/
+theorem forall_guard_derived (H : Decl → Nat) (c c1 : Ctx) (v : String) (r : RegTy) (t : Option Nat) (i : Nat) (hal : c.aligned)
+    (hreg : registerSymbol H c v r = .ok c1) (hi : findName v c1.names = some i) :
+    enterForall c1 i t = enterForallRaw c1 i t := by
+  obtain ⟨j, fl, hj, hfl, hl⟩ := registerSymbol_unlocked hreg hal
+  rw [hi] at hj
+  cases hj
+  exact enterForall_eq_raw t hfl hl
+
+example : (registerSymbol (fun _ => 5) exSymCtx "E" (.tuple [⟨2, 0, 0⟩] 0)).toOption.map (·.names) = some ["X", "T", "E"] ∧
+    exSymCtx.aligned := by decide
+
+/-- **statement_level_is_id_level.** For EVERY text (statement heads by name) and EVERY aligned context, the statement-level
+parse — raw clause entries, FORALL "protected symbol" test, names resolved by `findSymbol` — is the id-level parse of the
+compiled events: every theorem above holds of it. -/
+theorem statement_level_is_id_level (H : Decl → Nat) (c : Ctx) (hal : c.aligned) (evs : List NEv) :
+    parseTextN H c evs = parseText H c (compile H (St.init c) evs) := parseTextN_eq hal evs
+
+example : exUseCtx.aligned ∧ (parseTextN (fun _ => 0) exUseCtx [.forLoop "I", .reg "X" (.plain ⟨4, 0, 0⟩), .fail]).ok = false := by decide
+
+/-- a context for the nested examples: `T`, `U` tables of integers, `E` an integer that existed before -/
+def exNestCtx : Ctx :=
+  ⟨["T", "U", "E"], [(⟨2, 0, 1⟩, []), (⟨2, 0, 1⟩, []), (⟨2, 0, 0⟩, [])], [(false, false), (false, false), (false, false)],
+   [], 0, false, [], none⟩
+
+/-- forall over `T` with the pre-existing iterator `E`, nested forall over the SAME table with a new iterator `F`, nested
+forall over ANOTHER table `U` with new `G`, nested FOR `I`, then an error: at the throw `T` is locked, `U` is locked, the
+inner iterator `F` is read-only (it inherits the lock `T` has inside the outer loop — this is what seeded/C09-m3 removes),
+`G` is not (U was free), all iterators are type-safe; depth 4 -/
+def exNestText : Text :=
+  [.forallLoop "E" (.plain ⟨2, 0, 0⟩) (some "T"), .forallLoop "F" (.plain ⟨2, 0, 0⟩) (some "T"),
+   .forallLoop "G" (.plain ⟨2, 0, 0⟩) (some "U"), .forLoop "I", .reg "E" (.plain ⟨2, 0, 0⟩), .fail]
+
+example : (nrun (fun _ => 0) (St.init exNestCtx) exNestText).2.ctx.names = ["T", "U", "E", "F", "G", "I"] ∧
+    (nrun (fun _ => 0) (St.init exNestCtx) exNestText).2.ctx.fls =
+      [(false, true), (false, true), (true, false), (true, true), (true, false), (true, false)] ∧
+    (nrun (fun _ => 0) (St.init exNestCtx) exNestText).2.ctx.exec = 4 ∧
+    (parseTextN (fun _ => 0) exNestCtx exNestText).ctx.fls =
+      [(false, false), (false, false), (false, false), (false, false), (false, false), (false, false)] := by decide
+
+/-- **reject_restores_flags_nested.** For EVERY text — any nesting depth of FOR / FORALL / other clauses, foralls nested over
+the same table or over another one, iterators that existed before or are new, the error in a header (`reg … fail`), in a
+body, after any number of completed inner loops — and EVERY idle, coherent, aligned context: on BOTH exits (accept and
+reject) the `_safety` / `_locked` flags of every pre-existing symbol and the exec depth are what they were; on a reject the
+whole symbol clause of the Spec holds. No guard is assumed (`for_guard_derived`, `forall_guard_derived`). -/
+theorem reject_restores_flags_nested (H : Decl → Nat) (c0 : Ctx) (evs : List NEv)
+    (hidle : c0.idle = true) (hcoh : c0.coherent H = true) (hal : c0.aligned) :
+    (parseTextN H c0 evs).ctx.fls.take c0.fls.length = c0.fls ∧ (parseTextN H c0 evs).ctx.exec = c0.exec ∧
+    (∀ c', parseTextN H c0 evs = .reject c' → SymsPreserved c0 c') := by
+  rw [parseTextN_eq hal]
+  cases h : parseText H c0 (compile H (St.init c0) evs) with
+  | accept c' =>
+    have := accept_keeps_flags H c0 c' _ hidle hcoh h
+    exact ⟨this.1, this.2.1, by intro c'' h'; cases h'⟩
+  | reject c' =>
+    have hs := reject_restores_symbols H c0 c' _ hidle hcoh h
+    exact ⟨hs.flags, hs.exec, by intro c'' h'; cases h'; exact hs⟩
+
+example : exNestCtx.idle = true ∧ exNestCtx.coherent (fun _ => 0) = true ∧ exNestCtx.aligned ∧
+    (parseTextN (fun _ => 0) exNestCtx exNestText).ok = false := by decide
+
+/-- the FORALL header refuses an iterator that an enclosing loop protects (`s && s->safety()`), before registering it -/
+example : (nrun (fun _ => 0) (St.init exNestCtx)
+      [.forallLoop "E" (.plain ⟨2, 0, 0⟩) (some "T"), .forallLoop "E" (.plain ⟨2, 0, 0⟩) (some "U")]).1 = true ∧
+    (nrun (fun _ => 0) (St.init exNestCtx)
+      [.forallLoop "E" (.plain ⟨2, 0, 0⟩) (some "T"), .forallLoop "E" (.plain ⟨2, 0, 0⟩) (some "U")]).2.ctx.exec = 1 := by decide
+
+/-! ## sequences of texts: what a rejected text leaves behind does not influence a later parse -/
+
+/-- **parse_independent_of_fbacked.** `FunctorManager::_backed` is cleared only by the next `createOrReplace`; whatever a
+previous text left in it, the outcome of the next parse is the same (and `_backed` is the only difference afterwards). -/
+theorem parse_independent_of_fbacked (H : Decl → Nat) (c : Ctx) (hal : c.aligned) (g : Option Fn) (evs : List NEv) :
+    ∃ g', parseTextN H { c with fbacked := g } evs = (parseTextN H c evs).map fun c1 => { c1 with fbacked := g' } := by
+  obtain ⟨g', h, _⟩ := parseTextN_lift (H := H) (wf_none c) (fits_none hal) evs
+    (by rw [List.all_eq_true]; intro e _; exact nev_avoids_none c e) g
+  refine ⟨g', ?_⟩
+  rw [lift_none] at h
+  rw [h]
+  cases parseTextN H c evs <;> simp [Outcome.map, lift_none]
+
+/-- non-trivially: a stale `_backed` (left by a rolled-back redefinition) and a text that fails in a new function's body -/
+example : (parseTextN (fun _ => 0) { wFG with fbacked := some ⟨"F", 1, 200, false⟩ } [.fnBegin "H" 0 150, .fail]).ctx.fns = wFG.fns ∧
+    (parseTextN (fun _ => 0) wFG [.fnBegin "H" 0 150, .fail]).ctx.fns = wFG.fns ∧ wFG.aligned := by decide
+
+/-- after a rejected text (symbols and functions preserved) the context IS the one before with the left-overs inserted -/
+theorem leftOver_lift {c0 c' : Ctx} (hidle : c0.idle = true) (hs : SymsPreserved c0 c') (hf : FnsPreserved c0 c')
+    (hal : c0.aligned) : c' = lift (leftOver c0 c') c'.fbacked c0 := by
+  have hb : c0.backed = [] := by
+    simp only [Ctx.idle, Bool.and_eq_true, List.isEmpty_iff] at hidle; exact hidle.2
+  have e1 := ins_leftover c0.names c'.names hs.names
+  have e2 := ins_leftover c0.tds c'.tds hs.types
+  have e3 := ins_leftover c0.fls c'.fls hs.flags
+  have e4 := ins_leftover c0.fns c'.fns hf
+  rw [hal.1] at e2
+  rw [hal.2] at e3
+  have e5 := hs.backed
+  have e6 := hs.exec
+  have e7 := hs.parsing
+  cases c'
+  simp only at e1 e2 e3 e4 e5 e6 e7
+  simp only [lift, leftOver, hb, List.map_nil, Ctx.mk.injEq]
+  exact ⟨e1, e2, e3, e5, e6, e7, e4, trivial⟩
+
+/-- the left-overs of the example further down: `Z` behind `I`, `X`; no function -/
+example : (leftOver ⟨["I"], [(⟨2, 0, 0⟩, [])], [(false, false)], [], 0, false, [], none⟩
+      (parseTextN (fun _ => 0) ⟨["I"], [(⟨2, 0, 0⟩, [])], [(false, false)], [], 0, false, [], none⟩ [.reg "Z" (.plain ⟨4, 0, 0⟩), .fail]).ctx).names = ["Z"] := by decide
+
+/-- **later_parse_independent_of_rejected** (the simulation `parseText c' ≈ parseText c0`). For EVERY idle, coherent,
+aligned context `c0`, EVERY rejected text `R` that completes no redefinition of a pre-existing function (the recorded
+finding region) and EVERY later text `T` that does not mention a name or a function that only `R` introduced: the outcome of
+`T` in the disturbed context is the outcome of `T` in `c0` — same verdict — with `R`'s left-over slots inserted behind the
+old ones (`lift`): nothing else differs, whatever `_backed` held. -/
+theorem later_parse_independent_of_rejected (H : Decl → Nat) (c0 c' : Ctx) (R T : Text)
+    (hidle : c0.idle = true) (hcoh : c0.coherent H = true) (hal : c0.aligned)
+    (hno : redefinitionCompleted H c0 (St.init c0) (compile H (St.init c0) R) = false)
+    (hrej : parseTextN H c0 R = .reject c')
+    (hT : T.all (NEv.avoids (leftOver c0 c')) = true) :
+    ∃ g, parseTextN H c' T = (parseTextN H c0 T).map (lift (leftOver c0 c') g) := by
+  have hal' : c'.aligned := by
+    have := aligned_parseTextN (H := H) hal R
+    rw [hrej] at this; exact this
+  have hrej' := hrej
+  rw [parseTextN_eq hal] at hrej'
+  have hs := reject_restores_symbols H c0 c' _ hidle hcoh hrej'
+  have hfn := reject_restores_functions_partial H c0 c' _ hno hrej'
+  have hc' := leftOver_lift hidle hs hfn hal
+  have hx : (leftOver c0 c').wf := by
+    constructor
+    · simp only [leftOver, List.length_drop, hal'.1]
+    · simp only [leftOver, List.length_drop, hal'.2]
+  have hfit : Fits (leftOver c0 c') c0 := ⟨Nat.le_refl _, hal, Nat.le_refl _⟩
+  obtain ⟨g, h, _⟩ := parseTextN_lift (H := H) hx hfit T hT c'.fbacked
+  rw [← hc'] at h
+  exact ⟨g, h⟩
+
+/-- … in the words of the property: same verdict, and the symbol and function tables restricted to what existed before `R`
+are the same after `T`, with or without `R`. -/
+theorem later_parse_same_verdict_and_tables (H : Decl → Nat) (c0 c' : Ctx) (R T : Text)
+    (hidle : c0.idle = true) (hcoh : c0.coherent H = true) (hal : c0.aligned)
+    (hno : redefinitionCompleted H c0 (St.init c0) (compile H (St.init c0) R) = false)
+    (hrej : parseTextN H c0 R = .reject c')
+    (hT : T.all (NEv.avoids (leftOver c0 c')) = true) :
+    (parseTextN H c' T).ok = (parseTextN H c0 T).ok ∧
+    (parseTextN H c' T).ctx.names.take c0.names.length = (parseTextN H c0 T).ctx.names.take c0.names.length ∧
+    (parseTextN H c' T).ctx.tds.take c0.names.length = (parseTextN H c0 T).ctx.tds.take c0.names.length ∧
+    (parseTextN H c' T).ctx.fls.take c0.names.length = (parseTextN H c0 T).ctx.fls.take c0.names.length ∧
+    (parseTextN H c' T).ctx.fns.take c0.fns.length = (parseTextN H c0 T).ctx.fns.take c0.fns.length ∧
+    (parseTextN H c' T).ctx.exec = (parseTextN H c0 T).ctx.exec ∧
+    (parseTextN H c' T).ctx.idle = (parseTextN H c0 T).ctx.idle := by
+  obtain ⟨g, h⟩ := later_parse_independent_of_rejected H c0 c' R T hidle hcoh hal hno hrej hT
+  have hfit : Fits (leftOver c0 c') c0 := ⟨Nat.le_refl _, hal, Nat.le_refl _⟩
+  have hx : (leftOver c0 c').wf := by
+    have hal' : c'.aligned := by
+      have := aligned_parseTextN (H := H) hal R
+      rw [hrej] at this; exact this
+    constructor
+    · simp only [leftOver, List.length_drop, hal'.1]
+    · simp only [leftOver, List.length_drop, hal'.2]
+  obtain ⟨_, _, hf2⟩ := parseTextN_lift (H := H) hx hfit T hT none
+  rw [h]
+  generalize parseTextN H c0 T = o at hf2
+  have key : ∀ c1 : Ctx, Fits (leftOver c0 c') c1 →
+      (lift (leftOver c0 c') g c1).names.take c0.names.length = c1.names.take c0.names.length ∧
+      (lift (leftOver c0 c') g c1).tds.take c0.names.length = c1.tds.take c0.names.length ∧
+      (lift (leftOver c0 c') g c1).fls.take c0.names.length = c1.fls.take c0.names.length ∧
+      (lift (leftOver c0 c') g c1).fns.take c0.fns.length = c1.fns.take c0.fns.length ∧
+      (lift (leftOver c0 c') g c1).exec = c1.exec ∧ (lift (leftOver c0 c') g c1).idle = c1.idle := by
+    intro c1 hf1
+    refine ⟨take_ins _ _ _ hf1.n, take_ins _ _ _ hf1.t, take_ins _ _ _ hf1.f, take_ins _ _ _ hf1.m, rfl, ?_⟩
+    simp only [Ctx.idle, lift]
+    cases c1.backed <;> rfl
+  cases o with
+  | accept c1 => exact ⟨rfl, key c1 hf2⟩
+  | reject c1 => exact ⟨rfl, key c1 hf2⟩
+
+/-- satisfiable, non-trivially: `R` registers a new `Z`, upgrades `X` inside a FOR body, starts redefining `F`, fails;
+`T` upgrades `X`, loops over a new `J`, declares a new function -/
+def exLaterCtx : Ctx :=
+  ⟨["I", "X"], [(⟨2, 0, 0⟩, []), (⟨2, 0, 0⟩, [])], [(false, false), (false, false)], [], 0, false,
+   [⟨"F", 1, 100, true⟩, ⟨"G", 1, 101, true⟩], none⟩
+def exLaterR : Text := [.reg "Z" (.plain ⟨4, 0, 0⟩), .forLoop "I", .reg "X" (.plain ⟨4, 0, 0⟩), .leave, .fnBegin "F" 1 200, .fail]
+def exLaterT : Text := [.reg "X" (.plain ⟨3, 0, 0⟩), .forLoop "J", .leave, .fnBegin "K" 0 300, .leave]
+
+example : exLaterCtx.idle = true ∧ exLaterCtx.coherent (fun _ => 0) = true ∧ exLaterCtx.aligned ∧
+    redefinitionCompleted (fun _ => 0) exLaterCtx (St.init exLaterCtx) (compile (fun _ => 0) (St.init exLaterCtx) exLaterR) = false ∧
+    (parseTextN (fun _ => 0) exLaterCtx exLaterR).ok = false ∧
+    (parseTextN (fun _ => 0) exLaterCtx exLaterR).ctx.names = ["I", "X", "Z"] ∧
+    exLaterT.all (NEv.avoids (leftOver exLaterCtx (parseTextN (fun _ => 0) exLaterCtx exLaterR).ctx)) = true ∧
+    (parseTextN (fun _ => 0) (parseTextN (fun _ => 0) exLaterCtx exLaterR).ctx exLaterT).ctx.names = ["I", "X", "Z", "J"] ∧
+    (parseTextN (fun _ => 0) exLaterCtx exLaterT).ctx.names = ["I", "X", "J"] := by decide
+
+/-- The hypothesis "T does not mention what only R introduced" is needed — this is the property's "(Names that only the
+rejected text introduced are outside the guarantee.)": `$z = 1; y = ;` is rejected and leaves the type-safe `$Z` integer;
+`$z = "a";`, valid before, is then refused with TYPE_MISMATCH. -/
+theorem later_parse_depends_on_leftover_names :
+    let c0 : Ctx := ⟨[], [], [], [], 0, false, [], none⟩
+    let R : Text := [.reg "$Z" (.plain ⟨2, 0, 0⟩), .fail]
+    let T : Text := [.reg "$Z" (.plain ⟨4, 0, 0⟩)]
+    (parseTextN (fun _ => 0) c0 R).ok = false ∧ (parseTextN (fun _ => 0) c0 T).ok = true ∧
+    (parseTextN (fun _ => 0) (parseTextN (fun _ => 0) c0 R).ctx T).ok = false := by decide
+
+/-- **history_independent_of_leftovers.** For EVERY sequence of later texts (each accepted or rejected, each leaving its own
+names behind) that do not mention the left-overs `x`: the verdicts are the same with and without the left-overs, and the
+final context is the undisturbed final context with the left-overs inserted. -/
+theorem history_independent_of_leftovers (H : Decl → Nat) (x : Extra) (hx : x.wf) (ts : List Text) (c : Ctx) (hf : Fits x c)
+    (g : Option Fn) (hts : ts.all (fun t => t.all (NEv.avoids x)) = true) :
+    (runHistory H (lift x g c) ts).1 = (runHistory H c ts).1 ∧
+    ∃ g', (runHistory H (lift x g c) ts).2 = lift x g' (runHistory H c ts).2 := by
+  induction ts generalizing c g with
+  | nil => exact ⟨rfl, g, rfl⟩
+  | cons t ts ih =>
+    simp only [List.all_cons, Bool.and_eq_true] at hts
+    obtain ⟨g1, h1, hf1⟩ := parseTextN_lift (H := H) hx hf t hts.1 g
+    simp only [runHistory]
+    rw [h1]
+    have e1 : ((parseTextN H c t).map (lift x g1)).ctx = lift x g1 (parseTextN H c t).ctx := by
+      cases parseTextN H c t <;> rfl
+    have e2 : ((parseTextN H c t).map (lift x g1)).ok = (parseTextN H c t).ok := by
+      cases parseTextN H c t <;> rfl
+    rw [e1, e2]
+    obtain ⟨ihv, g2, ihc⟩ := ih _ hf1 g1 hts.2
+    exact ⟨by rw [ihv], g2, ihc⟩
+
+example : (leftOver exLaterCtx (parseTextN (fun _ => 0) exLaterCtx exLaterR).ctx).names = ["Z"] ∧
+    (leftOver exLaterCtx (parseTextN (fun _ => 0) exLaterCtx exLaterR).ctx).tds.length = 1 ∧
+    (leftOver exLaterCtx (parseTextN (fun _ => 0) exLaterCtx exLaterR).ctx).n0 ≤ exLaterCtx.names.length := by decide
+
+/-- **history_without_rejected.** For EVERY history `R :: post` submitted to an idle, coherent, aligned context, `R` rejected
+(outside the finding region), `post` ANY sequence of texts — valid ones, rejected ones, declarations, calls — that do not
+mention what only `R` introduced: every text of `post` gets the verdict it gets without `R`, and the final context is the
+final context without `R` plus `R`'s left-over slots. -/
+theorem history_without_rejected (H : Decl → Nat) (c0 c' : Ctx) (R : Text) (post : List Text)
+    (hidle : c0.idle = true) (hcoh : c0.coherent H = true) (hal : c0.aligned)
+    (hno : redefinitionCompleted H c0 (St.init c0) (compile H (St.init c0) R) = false)
+    (hrej : parseTextN H c0 R = .reject c')
+    (hpost : post.all (fun t => t.all (NEv.avoids (leftOver c0 c'))) = true) :
+    (runHistory H c0 (R :: post)).1 = false :: (runHistory H c0 post).1 ∧
+    ∃ g, (runHistory H c0 (R :: post)).2 = lift (leftOver c0 c') g (runHistory H c0 post).2 := by
+  have hal' : c'.aligned := by
+    have := aligned_parseTextN (H := H) hal R
+    rw [hrej] at this; exact this
+  have hrej' := hrej
+  rw [parseTextN_eq hal] at hrej'
+  have hs := reject_restores_symbols H c0 c' _ hidle hcoh hrej'
+  have hfn := reject_restores_functions_partial H c0 c' _ hno hrej'
+  have hc' := leftOver_lift hidle hs hfn hal
+  have hx : (leftOver c0 c').wf := by
+    constructor
+    · simp only [leftOver, List.length_drop, hal'.1]
+    · simp only [leftOver, List.length_drop, hal'.2]
+  have hfit : Fits (leftOver c0 c') c0 := ⟨Nat.le_refl _, hal, Nat.le_refl _⟩
+  obtain ⟨hv, g, hc⟩ := history_independent_of_leftovers H _ hx post c0 hfit c'.fbacked hpost
+  rw [← hc'] at hv hc
+  simp only [runHistory, hrej, Outcome.ok, Outcome.ctx]
+  exact ⟨by rw [hv], g, hc⟩
+
+example : (runHistory (fun _ => 0) exLaterCtx [exLaterR, exLaterT, exLaterR, exLaterT]).1 = [false, true, false, true] ∧
+    (runHistory (fun _ => 0) exLaterCtx [exLaterT, exLaterR, exLaterT]).1 = [true, false, true] := by decide
+
+/-- an idle, coherent, aligned context stays so through any text: the hypotheses of the theorems above hold at every point
+of every history -/
+theorem history_keeps_invariants (H : Decl → Nat) (c : Ctx) (t : Text)
+    (hidle : c.idle = true) (hcoh : c.coherent H = true) (hal : c.aligned) :
+    (parseTextN H c t).ctx.idle = true ∧ (parseTextN H c t).ctx.coherent H = true ∧ (parseTextN H c t).ctx.aligned := by
+  refine ⟨?_, ?_, aligned_parseTextN hal t⟩
+  · rw [parseTextN_eq hal]
+    cases h : parseText H c (compile H (St.init c) t) with
+    | accept c' =>
+      have := accept_keeps_flags H c c' _ hidle hcoh h
+      simp [Outcome.ctx, Ctx.idle, this.2.2.1, this.2.2.2]
+    | reject c' =>
+      have hs := reject_restores_symbols H c c' _ hidle hcoh h
+      have hp : c.parsing = false := by
+        simp only [Ctx.idle, Bool.and_eq_true, Bool.not_eq_true'] at hidle; exact hidle.1
+      simp [Outcome.ctx, Ctx.idle, hs.backed, hs.parsing, hp]
+  · rw [parseTextN_eq hal]; exact coherent_parseText hidle hcoh _
+
+example : exLaterCtx.idle = true ∧ (parseTextN (fun _ => 0) exLaterCtx exLaterR).ctx.idle = true := by decide
+
+/-! ## behaviour after a reject (Model/Session.lean: parse-time tables + the interpreter model's state) -/
+
+/-- **reject_then_run_eq_run.** For EVERY session (parse-time tables idle, coherent, aligned; ANY variables, output,
+declarations), EVERY rejected text `R` outside the finding region and EVERY later text `T` (context effects `T.eff`,
+program `T.prog`) that does not mention what only `R` introduced: submitting `T` after `R` gives the same verdict and,
+when accepted, the SAME `Interp` run (outcome, returned value, every variable, the whole output) as submitting `T`
+without `R`; the declarations are the same and the parse-time tables differ by `R`'s left-over slots only. -/
+theorem reject_then_run_eq_run (H : Decl → Nat) (fuel : Nat) (s : Session.Sess) (R T : Session.Sub) (c' : Ctx)
+    (hidle : s.pc.idle = true) (hcoh : s.pc.coherent H = true) (hal : s.pc.aligned)
+    (hno : redefinitionCompleted H s.pc (St.init s.pc) (compile H (St.init s.pc) R.eff) = false)
+    (hrej : parseTextN H s.pc R.eff = .reject c')
+    (hT : T.eff.all (NEv.avoids (leftOver s.pc c')) = true) :
+    (Session.submit H fuel s R).2 = none ∧
+    (Session.submit H fuel s R).1.rt = s.rt ∧ (Session.submit H fuel s R).1.decls = s.decls ∧
+    (Session.submit H fuel (Session.submit H fuel s R).1 T).2 = (Session.submit H fuel s T).2 ∧
+    (Session.submit H fuel (Session.submit H fuel s R).1 T).1.rt = (Session.submit H fuel s T).1.rt ∧
+    (Session.submit H fuel (Session.submit H fuel s R).1 T).1.decls = (Session.submit H fuel s T).1.decls ∧
+    ∃ g, (Session.submit H fuel (Session.submit H fuel s R).1 T).1.pc
+      = lift (leftOver s.pc c') g (Session.submit H fuel s T).1.pc := by
+  obtain ⟨g, h⟩ := later_parse_independent_of_rejected H s.pc c' R.eff T.eff hidle hcoh hal hno hrej hT
+  have hs1 : Session.submit H fuel s R = ({ s with pc := c' }, none) := by
+    simp only [Session.submit, hrej]
+  rw [hs1]
+  refine ⟨rfl, rfl, rfl, ?_⟩
+  simp only [Session.submit, h]
+  cases parseTextN H s.pc T.eff with
+  | accept c1 => exact ⟨rfl, rfl, rfl, g, rfl⟩
+  | reject c1 => exact ⟨rfl, rfl, rfl, g, rfl⟩
+
+/-- satisfiable, non-trivially: the session of `exLaterCtx` with a variable holding 5; `R` = `exLaterR`; `T` assigns and prints -/
+def exSess : Session.Sess := ⟨exLaterCtx, ({ vars := [("X", .int 5)] } : BlocV.St), []⟩
+def exSubR : Session.Sub := ⟨exLaterR, []⟩
+def exSubT : Session.Sub := ⟨[.reg "X" (.plain ⟨2, 0, 0⟩)], [.letS "X" (.bin .add (.var "X") (.lit (.int 1))), .printS [.var "X"]]⟩
+
+example : (Session.submit (fun _ => 0) 1000 exSess exSubR).2.isNone = true ∧
+    ((Session.submit (fun _ => 0) 1000 (Session.submit (fun _ => 0) 1000 exSess exSubR).1 exSubT).2.map (·.st.output))
+      = ((Session.submit (fun _ => 0) 1000 exSess exSubT).2.map (·.st.output)) := by
+  constructor
+  · decide
+  · rfl
+
+/-! ## seeded/C09-m3 seen by the flag model
+
+The mutation `vt.locked(locked_ex_bak)` → `vt.locked(locked_vt_bak)` at the clause ENTRY gives the iterator its own saved
+lock instead of the target's. Restoration is untouched (both catch block and normal exit still write the saved values), so
+the C11 Spec cannot see it; the flags DURING the body differ exactly when the target is already locked — a forall nested in
+a forall over the same table — and that is what the trace correspondence compares at every reader call. -/
+
+/-- the mutated entry, as a definition -/
+def enterForallRawM3 (c : Ctx) (v : Nat) (tgt : Option Nat) : Option (Ctx × Frame) :=
+  match c.fls[v]? with
+  | some fv =>
+    let fls1 := modAt (setSafe true) v c.fls
+    match tgt with
+    | none => some ({ c with exec := c.exec + 1, fls := fls1 }, .forallC v fv.safety fv.locked none)
+    | some t =>
+      match fls1[t]? with
+      | some ft =>
+        let fls2 := modAt (setLock true) t fls1
+        let fls3 := modAt (setLock fv.locked) v fls2
+        some ({ c with exec := c.exec + 1, fls := fls3 }, .forallC v fv.safety fv.locked (some (t, ft.locked)))
+      | none => none
+  | none => none
+
+/-- `forall e in t loop forall f in t loop …`: (T, E, F) — inside the inner body the real entry leaves `F` read-only, the
+mutated one does not; unwinding both frames gives the original flags in both cases -/
+example :
+    let c : Ctx := ⟨["T", "E", "F"], [(⟨2, 0, 1⟩, []), (⟨2, 0, 0⟩, []), (⟨2, 0, 0⟩, [])], [(false, false), (false, false), (false, false)],
+      [], 0, true, [], none⟩
+    ((enterForallRaw c 1 (some 0)).bind fun p => (enterForallRaw p.1 2 (some 0)).map fun q => q.1.fls)
+      = some [(false, true), (true, false), (true, true)] ∧
+    ((enterForallRawM3 c 1 (some 0)).bind fun p => (enterForallRawM3 p.1 2 (some 0)).map fun q => q.1.fls)
+      = some [(false, true), (true, false), (true, false)] ∧
+    ((enterForallRawM3 c 1 (some 0)).bind fun p => (enterForallRawM3 p.1 2 (some 0)).map fun q =>
+      (p.2.exitCatch (q.2.exitCatch q.1)).fls) = some c.fls ∧
+    ((enterForallRaw c 1 (some 0)).bind fun p => (enterForallRaw p.1 2 (some 0)).map fun q =>
+      (p.2.exitCatch (q.2.exitCatch q.1)).fls) = some c.fls := by decide
+
+/-- the hypotheses of the theorems hold after ANY history -/
+theorem runHistory_invariants (H : Decl → Nat) (c : Ctx) (ts : List Text)
+    (hidle : c.idle = true) (hcoh : c.coherent H = true) (hal : c.aligned) :
+    (runHistory H c ts).2.idle = true ∧ (runHistory H c ts).2.coherent H = true ∧ (runHistory H c ts).2.aligned := by
+  induction ts generalizing c with
+  | nil => exact ⟨hidle, hcoh, hal⟩
+  | cons t ts ih =>
+    obtain ⟨h1, h2, h3⟩ := history_keeps_invariants H c t hidle hcoh hal
+    simp only [runHistory]
+    exact ih _ h1 h2 h3
+
+example : exLaterCtx.idle = true ∧ exLaterCtx.coherent (fun _ => 0) = true ∧ exLaterCtx.aligned ∧
+    (runHistory (fun _ => 0) exLaterCtx [exLaterR, exLaterT]).2.idle = true := by decide
+
+/-- **history_without_rejected_anywhere.** For EVERY history `pre ++ R :: post` submitted to an idle, coherent, aligned
+context — `pre` ANY texts (accepted, rejected, declarations, redefinitions), `R` rejected in the context `pre` leads to and
+outside the finding region there, `post` ANY texts not mentioning what only `R` introduced —: every other text gets the
+verdict it gets in the history without `R`, and the final context is the one without `R` plus `R`'s left-over slots. -/
+theorem history_without_rejected_anywhere (H : Decl → Nat) (c c' : Ctx) (pre post : List Text) (R : Text)
+    (hidle : c.idle = true) (hcoh : c.coherent H = true) (hal : c.aligned)
+    (hno : redefinitionCompleted H (runHistory H c pre).2 (St.init (runHistory H c pre).2)
+      (compile H (St.init (runHistory H c pre).2) R) = false)
+    (hrej : parseTextN H (runHistory H c pre).2 R = .reject c')
+    (hpost : post.all (fun t => t.all (NEv.avoids (leftOver (runHistory H c pre).2 c'))) = true) :
+    (runHistory H c (pre ++ R :: post)).1 = (runHistory H c pre).1 ++ false :: (runHistory H (runHistory H c pre).2 post).1 ∧
+    (runHistory H c (pre ++ post)).1 = (runHistory H c pre).1 ++ (runHistory H (runHistory H c pre).2 post).1 ∧
+    ∃ g, (runHistory H c (pre ++ R :: post)).2 = lift (leftOver (runHistory H c pre).2 c') g (runHistory H c (pre ++ post)).2 := by
+  obtain ⟨i1, i2, i3⟩ := runHistory_invariants H c pre hidle hcoh hal
+  obtain ⟨hv, g, hc⟩ := history_without_rejected H (runHistory H c pre).2 c' R post i1 i2 i3 hno hrej hpost
+  rw [runHistory_append, runHistory_append]
+  simp only
+  rw [hv, hc]
+  refine ⟨rfl, ?_, g, rfl⟩
+  first | rfl | trivial
+
+example : (runHistory (fun _ => 0) exLaterCtx ([exLaterT] ++ exLaterR :: [exLaterT])).1 = [true, false, true] ∧
+    (runHistory (fun _ => 0) exLaterCtx ([exLaterT] ++ [exLaterT])).1 = [true, true] := by decide
+
+
+
+/-! ## whole histories, run time included -/
+
+/-- **session_history_without_rejected.** For EVERY session and EVERY history `R :: post` of submitted texts, `R` rejected
+(outside the finding region), `post` ANY texts that do not mention what only `R` introduced: every text of `post` has the
+verdict and — when accepted — exactly the `Interp` run (outcome, returned value, variables, output so far) it has in the
+history without `R`; the final variables, output and declarations are the same; the parse-time tables differ by `R`'s
+left-over slots. -/
+theorem session_history_without_rejected (H : Decl → Nat) (fuel : Nat) (s : Session.Sess) (R : Session.Sub)
+    (post : List Session.Sub) (c' : Ctx)
+    (hidle : s.pc.idle = true) (hcoh : s.pc.coherent H = true) (hal : s.pc.aligned)
+    (hno : redefinitionCompleted H s.pc (St.init s.pc) (compile H (St.init s.pc) R.eff) = false)
+    (hrej : parseTextN H s.pc R.eff = .reject c')
+    (hpost : post.all (fun t => t.eff.all (NEv.avoids (leftOver s.pc c'))) = true) :
+    (Session.submitAll H fuel s (R :: post)).1 = none :: (Session.submitAll H fuel s post).1 ∧
+    (Session.submitAll H fuel s (R :: post)).2.rt = (Session.submitAll H fuel s post).2.rt ∧
+    (Session.submitAll H fuel s (R :: post)).2.decls = (Session.submitAll H fuel s post).2.decls ∧
+    ∃ g, (Session.submitAll H fuel s (R :: post)).2.pc = lift (leftOver s.pc c') g (Session.submitAll H fuel s post).2.pc := by
+  have hal' : c'.aligned := by
+    have := aligned_parseTextN (H := H) hal R.eff
+    rw [hrej] at this; exact this
+  have hrej' := hrej
+  rw [parseTextN_eq hal] at hrej'
+  have hs := reject_restores_symbols H s.pc c' _ hidle hcoh hrej'
+  have hfn := reject_restores_functions_partial H s.pc c' _ hno hrej'
+  have hc' := leftOver_lift hidle hs hfn hal
+  have hx : (leftOver s.pc c').wf := by
+    constructor
+    · simp only [leftOver, List.length_drop, hal'.1]
+    · simp only [leftOver, List.length_drop, hal'.2]
+  have hfit : Fits (leftOver s.pc c') s.pc := ⟨Nat.le_refl _, hal, Nat.le_refl _⟩
+  obtain ⟨hv, g, hc⟩ := submitAll_lift H fuel hx post s hfit c'.fbacked hpost
+  rw [← hc'] at hv hc
+  have hsub : Session.submit H fuel s R = ({ s with pc := c' }, none) := by
+    simp only [Session.submit, hrej]
+  simp only [Session.submitAll, hsub]
+  rw [hv, hc]
+  exact ⟨rfl, rfl, rfl, g, rfl⟩
+
+example : ((Session.submitAll (fun _ => 0) 1000 exSess [exSubR, exSubT, exSubR, exSubT]).1.map (·.isSome)) = [false, true, false, true] := by
+  decide
+
 
 end BlocV.ParseCtx
